@@ -141,8 +141,22 @@ func runC02(ctx *vh.Ctx) error {
 			o.MaxNodes = 12
 		}
 		c := &c02Case{G: gcase.Gen(ctx.Rng, o), Input: fmt.Sprintf("x%d", ctx.Rng.Intn(5))}
+		before := len(ctx.Res.Disagreements)
 		if err := c02One(ctx, c); err != nil {
 			return err
+		}
+		if len(ctx.Res.Disagreements) > before {
+			ctx.ShrinkNew(before, 300, func(cs any) []any {
+				cc, ok := cs.(*c02Case)
+				if !ok {
+					return nil
+				}
+				var out []any
+				for _, g := range gcase.ShrinkCandidates(cc.G) {
+					out = append(out, &c02Case{G: g, Input: cc.Input})
+				}
+				return out
+			}, func(sh *vh.Ctx, cand any) { _ = c02One(sh, cand.(*c02Case)) })
 		}
 	}
 	for _, f := range c02Extra {
